@@ -34,10 +34,11 @@ def load(tier):
         depth = ctx.pick({1: 2, 2: 2, 3: 1}, {1: 3, 2: 3, 3: 2})[n]
         for lay in sp.enumerate_layouts(n, depth):
             LAYOUTS.append((heads, lay))
+    LAYOUTS.extend(sp.curated_layouts())      # deep hand-picked layouts (nested split + join next to another spine, ...)
     # C06.b (public keywords) runs on a stride sample of the layouts: the per-node gate itself is C06.a's
     global B_LAYOUTS
     step = ctx.pick(11, 3)
-    B_LAYOUTS = list(range(0, len(LAYOUTS), step))
+    B_LAYOUTS = list(range(0, len(LAYOUTS), step)) + list(range(len(LAYOUTS) - len(sp.curated_layouts()), len(LAYOUTS), 3))
 
 
 class BVSet:
